@@ -33,6 +33,8 @@ Inductive pat :=
 | PWild | PVar (x : string)
 | POk (p : pat) | PErr (p : pat) | PSome (p : pat) | PNone | PUnit
 | PVariant (n : string) | PPD (d : pd) | PBool (b : bool)
+| PCmd (k : pd) (p : pat)          (* Command::Position(x) ... *)
+| PUnitC (a b : Z)                 (* a named unit constant used as a pattern *)
 | PArr (ps : list pat) | POr (ps : list pat).
 
 Inductive lval := LVar (x : string) | LField (l : lval) (f : string).
@@ -43,6 +45,9 @@ Inductive mexpr :=
 | EField (e : mexpr) (f : string)
 | EOp (o : Z) (args : list mexpr)
 | EPow (a b : mexpr)
+| EInt (o : Z) (args : list mexpr)      (* raw i64 arithmetic on the field of Time / DimensionlessInteger: 1 + 2 - 3 * 4 / 9 neg *)
+| ECast (to_f32 : bool) (e : mexpr)    (* `as f32` (from i64) / `as i64` (from f32) *)
+| EQFrom (e : mexpr)                   (* Quantity::from(e): the table's conversion, or the identity (From<T> for T) on a Quantity *)
 | EOk (e : mexpr) | EErr (e : mexpr) | ESome (e : mexpr) | ENone | EUnit
 | EErrFromNone
 | ERec (fs : list (string * mexpr))
@@ -95,11 +100,27 @@ Definition field_of (m : mval) (f : string) : option mval :=
   | MRec fs => lookup f fs
   | MV (VDat t v) => if String.eqb f "time" then Some (MV (VT t)) else if String.eqb f "value" then Some (lift v) else None
   | MV (VQ q) => if String.eqb f "unit" then Some (MV (VU (qu q))) else if String.eqb f "value" then Some (MV (VF (qv q))) else None
+  | MV (VT t) => if String.eqb f "0" then Some (MV (VI t)) else None
+  | MV (VD d) => if String.eqb f "0" then Some (MV (VI d)) else None
+  | MV (VS s) => if String.eqb f "position" then Some (MV (VF (s_pos s)))
+                 else if String.eqb f "velocity" then Some (MV (VF (s_vel s)))
+                 else if String.eqb f "acceleration" then Some (MV (VF (s_acc s))) else None
   | _ => None
   end.
 Definition set_field (m : mval) (f : string) (v : mval) : option mval :=
   match m with
   | MRec fs => match update f v fs with Some fs' => Some (MRec fs') | None => None end
+  | MV (VT _) => match v with MV (VI z) => if String.eqb f "0" then Some (MV (VT z)) else None | _ => None end
+  | MV (VD _) => match v with MV (VI z) => if String.eqb f "0" then Some (MV (VD z)) else None | _ => None end
+  | MV (VS s) =>
+      match v with
+      | MV (VF x) =>
+          if String.eqb f "position" then Some (MV (VS {| s_pos := x; s_vel := s_vel s; s_acc := s_acc s |}))
+          else if String.eqb f "velocity" then Some (MV (VS {| s_pos := s_pos s; s_vel := x; s_acc := s_acc s |}))
+          else if String.eqb f "acceleration" then Some (MV (VS {| s_pos := s_pos s; s_vel := s_vel s; s_acc := x |}))
+          else None
+      | _ => None
+      end
   | _ => None
   end.
 
@@ -130,6 +151,8 @@ Fixpoint pmatch (p : pat) (v : mval) {struct p} : option env :=
   | PVariant n => match v with MVariant m => if String.eqb n m then Some [] else None | _ => None end
   | PPD d => match v with MV (VPD d') => if pd_eqb d d' then Some [] else None | _ => None end
   | PBool b => match v with MV (VB b') => if Bool.eqb b b' then Some [] else None | _ => None end
+  | PCmd k q => match v with MV (VC x) => if pd_eqb k (c_kind x) then pmatch q (MV (VF (c_val x))) else None | _ => None end
+  | PUnitC a b => match v with MV (VU u) => if ueqb u (unew c a b) then Some [] else None | _ => None end
   | PArr ps =>
       match v with
       | MArr vs =>
@@ -217,12 +240,30 @@ Definition prim_tree (o : Z) (ws : list val) : tree rv :=
       if (o =? 1) || (o =? 5) then tq (qadd c a b) VQ
       else if (o =? 2) || (o =? 6) then tq (qsub c a b) VQ
       else Leaf (apply_op c o ws)
+  | [VQ a; VT t] =>
+      if (o =? 1) || (o =? 5) then tq (qadd c a (q_of_time c t)) VQ
+      else if (o =? 2) || (o =? 6) then tq (qsub c a (q_of_time c t)) VQ
+      else Leaf (apply_op c o ws)
+  | [VQ a; VD d] =>
+      if (o =? 1) || (o =? 5) then tq (qadd c a (q_of_dint c d)) VQ
+      else if (o =? 2) || (o =? 6) then tq (qsub c a (q_of_dint c d)) VQ
+      else Leaf (apply_op c o ws)
+  | [VT t; VQ b] =>
+      if o =? 1 then tq (qadd c (q_of_time c t) b) VQ
+      else if o =? 2 then tq (qsub c (q_of_time c t) b) VQ
+      else Leaf (apply_op c o ws)
+  | [VD d; VQ b] =>
+      if o =? 1 then tq (qadd c (q_of_dint c d) b) VQ
+      else if o =? 2 then tq (qsub c (q_of_dint c d) b) VQ
+      else Leaf (apply_op c o ws)
   | [VDat t1 (VQ a); VDat t2 (VQ b)] =>
       if (o =? 1) || (o =? 5) then tq (qadd c a b) (fun q => VDat (tmax_ge t1 t2) (VQ q))
       else if (o =? 2) || (o =? 6) then tq (qsub c a b) (fun q => VDat (tmax_ge t1 t2) (VQ q))
       else Leaf (apply_op c o ws)
   | [VU a; VU b] =>
-      if o =? O_ASSERT_OK then TRes (assert_ok c a b) (fun _ => Leaf (RVal VUnit))
+      if (o =? 1) || (o =? 5) then TRes (uadd c a b) (fun u => Leaf (RVal (VU u)))
+      else if (o =? 2) || (o =? 6) then TRes (usub c a b) (fun u => Leaf (RVal (VU u)))
+      else if o =? O_ASSERT_OK then TRes (assert_ok c a b) (fun _ => Leaf (RVal VUnit))
       else if o =? O_ASSERT_NOT_OK then TRes (assert_not_ok c a b) (fun _ => Leaf (RVal VUnit))
       else Leaf (apply_op c o ws)
   | [VQ p; VQ v; VQ a] =>
@@ -280,6 +321,27 @@ Fixpoint eval (e : mexpr) (en : env) {struct e} : tree outcome :=
       do (x, en1) <- eval a en;
       do (y, en2) <- eval b en1;
       match x, y with MV (VF p), MV (VF q) => ret1 (MV (VF (fpow p q))) en2 | _, _ => Leaf OType end
+  | EInt o args =>
+      eval_list (fun a0 en0 => eval a0 en0) args [] en (fun vs en1 =>
+        match vs with
+        | [MV (VI a); MV (VI b)] => TRes (arith_i o a b) (fun z => ret1 (MV (VI z)) en1)
+        | [MV (VI a)] => if o =? 9 then TRes (ineg a) (fun z => ret1 (MV (VI z)) en1) else Leaf OType
+        | _ => Leaf OType
+        end)
+  | ECast to_f32 a =>
+      do (v, en1) <- eval a en;
+      match v with
+      | MV (VI z) => if to_f32 then ret1 (MV (VF (f_of_Z z))) en1 else Leaf OType
+      | MV (VF x) => if to_f32 then Leaf OType else ret1 (MV (VI (f_to_i64 x))) en1
+      | _ => Leaf OType
+      end
+  | EQFrom a =>
+      do (v, en1) <- eval a en;
+      match v with
+      | MV (VQ q) => ret1 (MV (VQ q)) en1
+      | MV w => Leaf (of_rv (apply_op c O_Q_FROM [w]) en1)
+      | _ => Leaf OType
+      end
   | EOk a => do (v, en1) <- eval a en; ret1 (MOk v) en1
   | EErr a => do (v, en1) <- eval a en; ret1 (MErr v) en1
   | ESome a => do (v, en1) <- eval a en; ret1 (MSome v) en1
@@ -307,6 +369,7 @@ Fixpoint eval (e : mexpr) (en : env) {struct e} : tree outcome :=
       do (x, en1) <- eval a en;
       do (y, en2) <- eval b en1;
       match x, y with
+      | MV (VPD p), MV (VPD q) => TIf (pd_eqb p q) (ret1 MTup0 en2) (Leaf OPanic)
       | MV p, MV q =>
           match eq_val c p q with
           | RVal (VB t) => TIf t (ret1 MTup0 en2) (Leaf OPanic)
